@@ -426,8 +426,9 @@ class Scores:
         # Example: We want threshold at 70% TPR. If easy_pos_ratio=60%, then we want
         # the threshold at 25% TPR on the remaining 40% hard positives, since
         # 70% - 60% = 10% is 25% of the remaining 40%
+        at_max = np.asarray(tpr) >= 1.0  # Rounding must not move these off 1.0
         tpr = np.maximum(np.asarray(tpr) - self.easy_pos_ratio, 0.0)
-        tpr = np.minimum(tpr / self.hard_pos_ratio, 1.0)
+        tpr = np.maximum(np.minimum(tpr / self.hard_pos_ratio, 1.0), at_max)
         return self._threshold_at_ratio(self.pos, tpr, False, BinaryLabel.pos, method)
 
     def threshold_at_fnr(self, fnr, *, method: str = "linear"):
@@ -462,8 +463,9 @@ class Scores:
         if len(self.neg) == 0:
             raise ValueError("Cannot set threshold at TNR with no negative values.")
         # See explanation in threshold_at_tpr()
+        at_max = np.asarray(tnr) >= 1.0  # Rounding must not move these off 1.0
         tnr = np.maximum(np.asarray(tnr) - self.easy_neg_ratio, 0.0)
-        tnr = np.minimum(tnr / self.hard_neg_ratio, 1.0)
+        tnr = np.maximum(np.minimum(tnr / self.hard_neg_ratio, 1.0), at_max)
         return self._threshold_at_ratio(self.neg, tnr, True, BinaryLabel.neg, method)
 
     def threshold_at_fpr(self, fpr, *, method: str = "linear"):
@@ -502,8 +504,9 @@ class Scores:
             raise ValueError("Cannot set threshold at TOPR without any values.")
         # See explanation at threshold_at_tonr()
         easy_pos_to_total_ratio = self.nb_easy_pos / self.nb_all_samples
+        at_max = np.asarray(topr) >= 1.0  # Rounding must not move these off 1.0
         topr = np.maximum(np.asarray(topr) - easy_pos_to_total_ratio, 0.0)
-        topr = np.minimum(topr / self.hard_ratio, 1.0)
+        topr = np.maximum(np.minimum(topr / self.hard_ratio, 1.0), at_max)
         return self._threshold_at_ratio(
             concat_scores, topr, False, BinaryLabel.pos, method
         )
@@ -530,8 +533,9 @@ class Scores:
         # threshold at 50% TONR on the 10% of data for which we have scores, since
         # 85% - 80% = 5% is 50% of the 10% data with scores (5% / 10%).
         easy_neg_to_total_ratio = self.nb_easy_neg / self.nb_all_samples
+        at_max = np.asarray(tonr) >= 1.0  # Rounding must not move these off 1.0
         tonr = np.maximum(np.asarray(tonr) - easy_neg_to_total_ratio, 0.0)
-        tonr = np.minimum(tonr / self.hard_ratio, 1.0)
+        tonr = np.maximum(np.minimum(tonr / self.hard_ratio, 1.0), at_max)
         return self._threshold_at_ratio(
             concat_scores, tonr, True, BinaryLabel.neg, method
         )
